@@ -186,6 +186,29 @@ TIES = {
                                     "rdflib_quads_stream_frames_is_model", "rdflib_quads_stream_frames_gen_is_model",
                                     "rdflib_triples_stream_frames_is_model", "rdflib_triples_stream_frames_gen_is_model",
                                     "rdflib_triples_stream_frames_ds_is_model", "rdflib_graphs_stream_frames_is_model", "rdflib_stream_frames_is_model"]},
+    # the rdflib integration's adapters (with the Adapter base class) over the unit's specification of rdflib's constructors, translated,
+    # simulate the adapters as the model has them at ig = Rdflib (literal() = mk_literal Rdflib): what DecoderTie assumed of them, PROVED
+    "rdflib_parse": {"sources": ["pyjelly/integrations/rdflib/parse.py", "pyjelly/parse/decode.py"],
+                     "gen": "RdflibParseGen", "tie": "RdflibParseTie",
+                     "needs": ["lookup_enc", "lookup_dec", "options", "encode", "decode", "decoder_base", "decoder"],
+                     "theorems": ["rdflib_decode_row_is_model", "rdflib_iter_rows_is_model", "rdflib_iter_rows_on_built_frame",
+                                  "rdflib_decoder_init_is_model", "types_named_iff_r"]},
+    # C04 / C15 / C02 for the rdflib reader, translated: any RDF 1.1 stream the referee accepts is read -- by the translated Decoder over the
+    # translated rdflib adapters, and by the translated parse_jelly_flat -- to the rdflib objects of the VIEW of its events
+    "rdflib_round_trip": {"sources": ["pyjelly/integrations/rdflib/parse.py", "pyjelly/parse/decode.py"],
+                          "unit": "rdflib_parse", "gen": "RdflibParseGen", "tie": "RdflibRoundTrip", "props": ["C02", "C04", "C15"],
+                          "needs": ["lookup_enc", "lookup_dec", "options", "encode", "encode_stmt", "flows", "streams", "decode", "decoder_base", "decoder", "stmt_layout",
+                                    "generic_sink", "generic_parse", "generic_serialize", "generic_round_trip", "rdflib_parse"],
+                          "theorems": ["rdflib_reads_frames", "C04_source_rdflib_reads_valid_streams", "C04_source_rdflib_exact", "C04_source_rdflib_flat_parser"]},
+    # C02 end to end on translated source: the frames the translated rdflib driver yields (a Graph through a TripleStream, a Dataset's
+    # quads() through a QuadStream), through the translated rdflib flat parser, give back the objects of the statements (no model in the conclusion)
+    "rdflib_end_to_end": {"sources": ["pyjelly/integrations/rdflib/serialize.py", "pyjelly/integrations/rdflib/parse.py", "pyjelly/serialize/encode.py",
+                                      "pyjelly/parse/decode.py", "pyjelly/serialize/streams.py", "pyjelly/serialize/flows.py"],
+                          "unit": "rdflib_parse", "gen": "RdflibParseGen", "tie": "RdflibEndToEnd", "props": ["C02"],
+                          "needs": ["lookup_enc", "lookup_dec", "options", "encode", "encode_stmt", "flows", "streams", "decode", "decoder_base", "decoder", "stmt_layout",
+                                    "generic_sink", "generic_parse", "generic_serialize", "generic_round_trip", "rdflib_serialize", "rdflib_drivers", "rdflib_parse",
+                                    "rdflib_round_trip"],
+                          "theorems": ["C02_end_to_end_rdflib_graph", "C02_end_to_end_rdflib_dataset_quads"]},
     "generic_sink": {"sources": ["pyjelly/integrations/generic/generic_sink.py"], "gen": "GenericSinkGen", "tie": "GenericTerms", "needs": [],
                      "theorems": ["source_term_eq_is_model"]},
     "generic_parse": {"sources": ["pyjelly/integrations/generic/parse.py", "pyjelly/integrations/generic/generic_sink.py", "pyjelly/parse/decode.py"],
@@ -462,11 +485,13 @@ def _rdflib_literal_check(seed: int, n: int) -> tuple[str | None, int]:
             f"`{bad[:300]}` is what rdflib does :: {out[-200:]}"), len(cases)
 
 
-def _tx_check(ctx, repo: str, n: int, reader: bool, writer: bool, rdf: bool = False) -> tuple[str | None, int, dict]:
-    """The translation cross-check (txcheck.py): the generated Gallina of the reader chain, evaluated by vm_compute, against the
-    real code of the tree under check on the same frames -- yields and exception classes, frame by frame."""
+def _tx_check(ctx, repo: str, n: int, reader: bool, writer: bool, rdf: bool = False, rdfp: bool = False) -> tuple[str | None, int, dict]:
+    """The translation cross-check (txcheck.py): the generated Gallina of the reader and writer chains, evaluated by vm_compute, against
+    the real code of the tree under check on the same inputs -- yields / frames and exception classes.  The cases are generated in one
+    fixed order from one generator, then evaluated by several coqc processes side by side."""
     import shutil
     import tempfile
+    from concurrent.futures import ThreadPoolExecutor
 
     import txcheck
 
@@ -474,70 +499,75 @@ def _tx_check(ctx, repo: str, n: int, reader: bool, writer: bool, rdf: bool = Fa
     os.mkdir(f"{tmpd}/gen")
     q = f"-Q model PJ.Model -Q tie PJ.Tie -Q {tmpd}/tie PJ.Tie -Q {tmpd}/gen PJ.Gen"
     os.mkdir(f"{tmpd}/tie")
+    gens = {"lookup_enc": "LookupEncGen", "lookup_dec": "LookupDecGen", "options": "OptionsGen", "encode": "EncodeGen", "flows": "FlowsGen",
+            "streams": "StreamsGen", "decode": "DecodeGen", "generic_sink": "GenericSinkGen", "generic_parse": "GenericParseGen",
+            "generic_serialize": "GenericSerializeGen", "rdflib_serialize": "RdflibSerializeGen", "rdflib_parse": "RdflibParseGen"}
     try:
-        for unit in ("lookup_enc", "lookup_dec", "options", "encode", "flows", "streams", "decode", "generic_sink", "generic_parse", "generic_serialize") + (("rdflib_serialize",) if rdf else ()):
+        for unit in ("lookup_enc", "lookup_dec", "options", "encode", "flows", "streams", "decode", "generic_sink", "generic_parse", "generic_serialize") \
+                + (("rdflib_serialize",) if rdf else ()) + (("rdflib_parse",) if rdfp else ()):
             p = subprocess.run([sys.executable, str(VERIF / "translate" / "py2v.py"), repo, unit], capture_output=True, text=True, timeout=120)
             if p.returncode != 0:
                 return None, 0, {"note": "translator refuses the source (reported by the tie)"}
-            gen = {"lookup_enc": "LookupEncGen", "lookup_dec": "LookupDecGen", "options": "OptionsGen", "encode": "EncodeGen", "flows": "FlowsGen",
-                   "streams": "StreamsGen", "decode": "DecodeGen", "generic_sink": "GenericSinkGen", "generic_parse": "GenericParseGen",
-                   "generic_serialize": "GenericSerializeGen", "rdflib_serialize": "RdflibSerializeGen"}[unit]
-            (Path(tmpd) / "gen" / f"{gen}.v").write_text(p.stdout)
-            rc, out = sh(f"cd {VERIF}/coq && timeout 600 coqc {q} {tmpd}/gen/{gen}.v", timeout=700)
+            (Path(tmpd) / "gen" / f"{gens[unit]}.v").write_text(p.stdout)
+            rc, out = sh(f"cd {VERIF}/coq && timeout 600 coqc {q} {tmpd}/gen/{gens[unit]}.v", timeout=700)
             if rc != 0:
                 return None, 0, {"note": "the generated code does not compile (reported by the tie)"}
-        rc, out = sh(f"cd {VERIF}/coq && timeout 600 coqc {q} -o {tmpd}/tie/TxRun.vo tie/TxRun.v", timeout=700)
-        if rc != 0:
-            return f"translation cross-check: coq/tie/TxRun.v does not compile against the translation of this tree: {out[-300:]}", 0, {}
-        if rdf:
-            rc, out = sh(f"cd {VERIF}/coq && timeout 600 coqc {q} -o {tmpd}/tie/TxRunRdflib.vo tie/TxRunRdflib.v", timeout=700)
-            if rc != 0:
-                return f"translation cross-check: coq/tie/TxRunRdflib.v does not compile against the translation of this tree: {out[-300:]}", 0, {}
+        for fn, on in (("TxRun", True), ("TxRunRdflib", rdf), ("TxRunRdflibParse", rdfp)):
+            if on:
+                rc, out = sh(f"cd {VERIF}/coq && timeout 600 coqc {q} -o {tmpd}/tie/{fn}.vo tie/{fn}.v", timeout=700)
+                if rc != 0:
+                    return f"translation cross-check: coq/tie/{fn}.v does not compile against the translation of this tree: {out[-300:]}", 0, {}
         class _C:  # its own generator: the plan's sample does not depend on whether this check ran
             rng = random.Random(ctx.seed * 104729 + 7)
         cases, stats = txcheck.gen_cases(_C, n) if reader else ([], {})
         if writer:
-            wcases, wstats = txcheck.gen_writer_cases(_C, n)
-            cases += wcases
-            stats["writer"] = wstats
-            dcases, dstats = txcheck.gen_driver_cases(_C, n)
-            cases += dcases
-            stats["drivers"] = dstats
-            gcases, gstats = txcheck.gen_grouped_writer_cases(_C, n)
-            cases += gcases
-            stats["grouped_writer"] = gstats
-            fcases, fstats = txcheck.gen_flat_writer_cases(_C, n)
-            cases += fcases
-            stats["flat_writer"] = fstats
-        os.mkdir(f"{tmpd}/cases")
-        (Path(tmpd) / "cases" / "TxCases.v").write_text(txcheck.coq_file(cases))
-        rc, out = sh(f"cd {VERIF}/coq && timeout 1500 coqc {q} -Q {tmpd}/cases PJ.Tx {tmpd}/cases/TxCases.v", timeout=1600)
-        if rc == 0 and rdf:
-            rcases, rstats = txcheck.gen_rdflib_cases(_C, n)
-            stats["rdflib"] = rstats
-            rdcases, rdstats = txcheck.gen_rdflib_driver_cases(_C, max(20, n // 2))
+            for key, fn_ in (("writer", txcheck.gen_writer_cases), ("drivers", txcheck.gen_driver_cases), ("grouped_writer", txcheck.gen_grouped_writer_cases),
+                             ("flat_writer", txcheck.gen_flat_writer_cases)):
+                cs_, st_ = fn_(_C, n)
+                cases += cs_
+                stats[key] = st_
+        rcases: list[str] = []
+        if rdf:
+            rcases, stats["rdflib"] = txcheck.gen_rdflib_cases(_C, n)
+            rdcases, stats["rdflib_drivers"] = txcheck.gen_rdflib_driver_cases(_C, max(20, n // 2))
             rcases += rdcases
-            stats["rdflib_drivers"] = rdstats
-            (Path(tmpd) / "cases" / "TxCasesR.v").write_text(txcheck.coq_file_rdflib(rcases))
-            rc, out = sh(f"cd {VERIF}/coq && timeout 1500 coqc {q} -Q {tmpd}/cases PJ.Tx {tmpd}/cases/TxCasesR.v", timeout=1600)
-            if rc != 0:
-                m = re.search(r"line (\d+)", out)
-                k = (int(m.group(1)) - 5) // 2 if m else -1
-                bad = rcases[k][:300] + " ... " + rcases[k][-300:] if 0 <= k < len(rcases) else "?"
-                return (f"translation cross-check (rdflib): the specification of rdflib's term objects and Graph / Dataset containers in the translation unit, or the translated RDFLibTermEncoder with the "
-                        f"Stream classes and the rdflib drivers (generated Gallina evaluated by vm_compute), differs from the real rdflib / the real code of this tree: {bad} :: {out[-200:]}"), len(cases) + len(rcases), stats
-            cases = cases + rcases
+        pcases: list[str] = []
+        if rdfp:
+            pcases, stats["rdflib_reader"] = txcheck.gen_rdflib_reader_cases(_C, max(10, n // 2))
+        os.mkdir(f"{tmpd}/cases")
+        jobs = []   # (file name, cases, what differs when it fails)
+        generic_what = ("the translated source (generated Gallina of the reader chain -- options_from_frame, the generic adapters, Decoder.iter_rows -- or of the writer "
+                        "chain -- the options, TermEncoder with the generic dispatchers, the Stream classes and flows, the generic drivers over a GenericStatementSink -- "
+                        "evaluated by vm_compute) and the real code of this tree differ on a stream -- the translator or coq/tie/PyPrims.v does not describe this source")
+        for k_ in range(0, len(cases), 30):
+            jobs.append((f"TxCases{k_ // 30}", cases[k_:k_ + 30], txcheck.coq_file, generic_what))
+        for k_ in range(0, len(rcases), 60):
+            jobs.append((f"TxCasesR{k_ // 60}", rcases[k_:k_ + 60], txcheck.coq_file_rdflib,
+                         "(rdflib): the specification of rdflib's term objects and Graph / Dataset containers in the translation unit, or the translated RDFLibTermEncoder with "
+                         "the Stream classes and the rdflib drivers (generated Gallina evaluated by vm_compute), differs from the real rdflib / the real code of this tree"))
+        for k_ in range(0, len(pcases), 12):
+            jobs.append((f"TxCasesP{k_ // 12}", pcases[k_:k_ + 12], txcheck.coq_file_rdflib_reader,
+                         "(rdflib reader): the specification of rdflib's constructors (URIRef, BNode, Literal with its language-tag check and whiteSpace-facet rewriting) in the "
+                         "translation unit, or the translated rdflib adapters / flat parser (generated Gallina evaluated by vm_compute), differs from the real rdflib / the real code of this tree"))
+
+        def run_job(job):
+            name, cs_, mk, what = job
+            (Path(tmpd) / "cases" / f"{name}.v").write_text(mk(cs_))
+            rc_, out_ = sh(f"cd {VERIF}/coq && timeout 1500 coqc {q} -Q {tmpd}/cases PJ.Tx {tmpd}/cases/{name}.v", timeout=1600)
+            if rc_ == 0:
+                return None
+            m = re.search(r"line (\d+)", out_)
+            k = (int(m.group(1)) - 5) // 2 if m else -1
+            bad = cs_[k][:400] + " ... " + cs_[k][-400:] if 0 <= k < len(cs_) else "?"
+            return f"translation cross-check {what}: {bad} :: {out_[-200:]}"
+        with ThreadPoolExecutor(max_workers=6) as ex:
+            fails = [r for r in ex.map(run_job, jobs) if r]
     finally:
         shutil.rmtree(tmpd, ignore_errors=True)
-    if rc == 0:
-        return None, len(cases), stats
-    m = re.search(r"line (\d+)", out)
-    k = (int(m.group(1)) - 5) // 2 if m else -1
-    bad = cases[k][:400] + " ... = " + cases[k][cases[k].rfind("] = ["):][:400] if 0 <= k < len(cases) else "?"
-    return (f"translation cross-check: the translated source (generated Gallina of the reader chain -- options_from_frame, the generic adapters, "
-            f"Decoder.iter_rows -- or of the writer chain -- the options, TermEncoder with the generic dispatchers, the Stream classes and flows, the generic drivers over a GenericStatementSink -- "
-            f"evaluated by vm_compute) and the real code of this tree differ on a stream -- the translator or coq/tie/PyPrims.v does not describe "
-            f"this source: {bad} :: {out[-200:]}"), len(cases), stats
+    total = len(cases) + len(rcases) + len(pcases)
+    if not fails:
+        return None, total, stats
+    return fails[0], total, stats
 
 
 def source_ties(ctx, po: dict, pid: str) -> list[str]:
@@ -562,7 +592,8 @@ def source_ties(ctx, po: dict, pid: str) -> list[str]:
         tx_r = bool(set(names) & {"decode", "decoder", "generic_parse"})
         tx_w = bool(set(names) & {"encode", "encode_stmt", "flows", "streams", "generic_serialize"})
         tx_rd = "rdflib_serialize" in names
-        tx = ex.submit(_tx_check, ctx, repo, 20 if ctx.quick else 120, tx_r, tx_w, tx_rd) if (tx_r or tx_w or tx_rd) else None
+        tx_rp = "rdflib_parse" in names
+        tx = ex.submit(_tx_check, ctx, repo, 20 if ctx.quick else 120, tx_r, tx_w, tx_rd, tx_rp) if (tx_r or tx_w or tx_rd or tx_rp) else None
         root_res = dict(zip([u for u, _ in roots], ex.map(lambda ut: _one_tie(ut[0], ut[1], repo), roots)))
 
         def top(u):
@@ -617,7 +648,11 @@ def source_ties(ctx, po: dict, pid: str) -> list[str]:
                                        if rd else "")
                                     + (f"; rdflib drivers on real rdflib Graphs / Datasets (and generators of Triple / Quad) against the translated drivers on the stand-ins built from "
                                        f"what the real containers hand out (iteration, graphs(), quads(), namespaces()): same frames and exception classes on {rdd['runs']} runs "
-                                       f"({rdd['by_driver']}; {rdd['frames']} frames; exceptions compared: {rdd['exceptions']})" if (rdd := tx_stats.get("rdflib_drivers")) else ""))
+                                       f"({rdd['by_driver']}; {rdd['frames']} frames; exceptions compared: {rdd['exceptions']})" if (rdd := tx_stats.get("rdflib_drivers")) else "")
+                                    + (f"; rdflib reader (options_from_frame, parse_jelly_flat with the rdflib adapters over the unit's specification of rdflib's constructors): same yields "
+                                       f"and exception classes on {rr['valid']} RDF 1.1 streams as they are ({rr['facet_rewritten']} events with an xsd:token / xsd:normalizedString literal "
+                                       f"that rdflib rewrites), {rr['mutated']} with one mutation and {rr['bad_tag']} with a language tag made ill-formed ({rr['yields']} objects yielded; "
+                                       f"exceptions compared: {rr['exceptions']})" if (rr := tx_stats.get("rdflib_reader")) else ""))
     if rlit_bad:
         po["broken"].append(rlit_bad)
     elif rlit_n:
